@@ -10,7 +10,7 @@ import resolved_io
 import vlib
 
 GEN = ["GenSrcDigest"]
-LEVEL = "translation_validation"
+LEVEL = "proof"
 TRUSTED = [
     "for the THEOREM C01_fragment_preservation (Coq, all programs of the fragment coq/Pres/Frag.v): Coq 8.16.1 kernel, no axioms; the definitions SyltSem (source semantics), LuaCore (Lua 5.3 semantics), Back/IR.v lower, Pres/EmitAst.v emit_ast; the run-time tie 'emit_ast' (parse of the real chunk == pre_block ++ emit_ast code, evaluated by the extracted code: ocaml/pres_driver.ml, OCaml structural equality) and the byte tie of Back/IR.v with the real compiler (C10)",
     "coq/Sem/SyltSem.v: the reference interpreter for resolved Sylt programs (the definition of 'what the source denotes'); operators, printing and structural comparison are those of Sem/Runtime.v",
